@@ -2,11 +2,15 @@
 
 Ties:  (T) `_update_next` is translated from $VERIF_REPO/tornado/ioloop.py into lean/TornadoModel/C39/Gen/Periodic.lean
            on every run (harness/translate/pyfn2lean.py) and `gen_eq_model` proves it equal to the hand model;
+       (C) the constructor: every case builds its PeriodicCallback through `__init__` with a number (float / int
+           milliseconds) or a `datetime.timedelta` (microsecond resolution, sub-millisecond and non-integral-ms values
+           included); the stored `callback_time` is compared with `Model.ctor` (exact quotient, correctly rounded) and
+           every later step is judged against the grid of the REQUESTED period, not of whatever the object stored;
        (H) the real `_update_next` on floats vs the exact model (per step, tolerance in ulps, computed in Lean),
            the real `_update_next` on dyadic floats vs the exact model (exact equality),
            the real PeriodicCallback on core/vloop.py vs the machine model (exact event traces).
 """
-import logging, math, os, random as _random
+import datetime, logging, math, os, random as _random
 from fractions import Fraction
 from core.wire import atom, line, parse_reply, Atom
 
@@ -18,6 +22,7 @@ THEOREMS = [_T + n for n in [
     "first_grid_point_after_now", "updateNext_frame", "iter_on_grid", "iter_strictly_increasing",
     "periodSec_jitter_bounds", "next_strictly_later_jitter", "not_before_now_jitter", "at_most_ahead_jitter",
     "inv_init", "step_inv", "no_overlap", "inv_run", "stop_prevents_runs", "stop_clears", "stop_disarms",
+    "ctor_accepts_any_period", "ctor_spec", "ctor_on_grid",
 ]]
 TRUSTED = [
     "harness/translate/pyfn2lean.py (Python ast -> Lean over Q); its output is proved equal to the hand model, which is "
@@ -27,20 +32,28 @@ TRUSTED = [
 ]
 ASSUMPTIONS = [
     "periods >= 1 microsecond, start times in [1e9, 2^31) seconds, jitter in [0, 1], random.random() in [0, 1)",
+    "constructor argument: float or int milliseconds, or datetime.timedelta (integral microseconds; 1 us .. 1 day for "
+    "stepped cases, also zero/negative for constructor-only cases, which the code as it is accepts); timedelta / timedelta "
+    "is CPython's correctly rounded true division (checked: |stored - us/1000| <= ulp/2)",
     "float comparison allowance (computed in Lean, Spec.tolFor): 2 ulp of the result + 2^-48 relative on the increment; a "
     "neighbouring floor is accepted only when the exact quotient is within 2^-48 (relative) of an integer",
     "machine programs call start() only on an idle PeriodicCallback (not running, nothing in flight): theorem hypothesis "
     "`WF`; double start()/restart while a coroutine invocation is pending arms a second timer chain (see docs/C39.md)",
     "machine runs use dyadic periods and clock values so that float arithmetic is exact and traces compare exactly",
 ]
-RULE = ("arith: periods log-uniform 1us..1day + round values, epoch-scale starts, clock sequences mixing small steps, exact "
+RULE = ("every case constructs the object with its period given as float ms, int ms or datetime.timedelta (35-40% timedelta: "
+        "sub-millisecond, non-integral and whole milliseconds, boundary values around 1 us / 1 ms); ctor: constructor-only "
+        "boundary list; arith: periods log-uniform 1us..1day + round values, epoch-scale starts, clock sequences mixing small steps, exact "
         "multiples, equal-to-schedule, backwards jumps, long gaps, jitter in [0,1]; machine: op programs over "
         "start/stop/fire/sleep/complete with sync, raising and coroutine callbacks; non-trivial = arith case with a catch-up "
         "step that skips >=1 period or a backwards clock, machine case with a coroutine in flight across another op")
 EXHAUSTIVE = {"quick": False, "thorough": False}
 CLAUSES = {
     "each run time is later than the previously scheduled one": "next_strictly_later, next_strictly_later_jitter, iter_strictly_increasing",
-    "lies (without jitter) on the grid start + k*period": "on_grid, iter_on_grid (via gen_eq_model for the source text)",
+    "for any period of at least a microsecond": "ctor_accepts_any_period, ctor_spec (numbers and timedeltas; the oracle "
+        "demands that the constructor accepts the period and judges every step against the requested period)",
+    "lies (without jitter) on the grid start + k*period": "on_grid, iter_on_grid (via gen_eq_model for the source text), "
+        "ctor_on_grid (grid of the requested period for an object built by the constructor)",
     "not before the current time up to floating-point rounding": "not_before_now(_jitter) over Q; floats: tie only (Spec.stepViolations with tolerance)",
     "at most one period after the current time while the clock has not gone backwards": "at_most_one_period_ahead, first_grid_point_after_now, at_most_ahead_jitter",
     "a coroutine callback is never started while its previous invocation is still running": "no_overlap (+ inv_run, step_inv)",
@@ -68,8 +81,40 @@ DYADIC_MS = [62.5, 125, 250, 375, 500, 1000, 1500, 2000, 3000, 4000]
 KINDS = ["sync", "raise", "coro"]
 
 
+# timedelta periods (microseconds): boundaries around 1 us and 1 ms, non-integral milliseconds, the values of the test suite
+NICE_US = [1, 2, 3, 7, 10, 100, 500, 999, 1000, 1001, 1499, 1500, 1501, 1999, 2000, 2001, 2500, 16667, 33333, 100000, 999999,
+           1000000, 1000001, 1000400, 1000999, 60000000, 83000000, 3600000000, 86400000000]
+# ... whose value in seconds is dyadic (exact float arithmetic): k/64 s; most are not a whole number of milliseconds
+DYADIC_US = [15625, 31250, 46875, 62500, 78125, 109375, 125000, 187500, 250000, 375000, 500000, 1000000, 1500000, 2000000]
+CTOR_TD = [-86400000000, -1000, -1, 0] + NICE_US
+CTOR_MS = [-1.0, -0.001, 0.0, 1e-4, 0.0009999, 0.001, 0.0010001, 0.0025, 0.5, 1.0, 2.5, 10.0, 83000.0, 1e9]
+CTOR_MSINT = [-5, 0, 1, 2, 10, 83000]
+
+
 def _h(x):
     return float(x).hex()
+
+
+def _period_us(rng):
+    r = rng.random()
+    if r < 0.35:
+        return rng.choice(NICE_US)
+    if r < 0.55:
+        return rng.randint(1, 999)                                           # below a millisecond
+    if r < 0.80:
+        return int(10 ** rng.uniform(0, 7.9)) * 1000 + rng.randint(1, 999)   # not a whole number of milliseconds
+    if r < 0.90:
+        return int(10 ** rng.uniform(0, 7.9)) * 1000                         # whole milliseconds
+    return max(1, int(10 ** rng.uniform(0, math.log10(86400e6))))
+
+
+def _with_period(rng, case, ct, us_pool=None):
+    """choose how the period reaches the constructor: timedelta / int ms / float ms"""
+    if "td_us" in case:
+        return case
+    if ct == int(ct) and rng.random() < 0.3:
+        case["ms_int"] = True
+    return case
 
 
 def _f(h):
@@ -108,7 +153,8 @@ def _clock_step(rng, nxt, p):
 
 
 def _gen_arith(rng):
-    ct = _period(rng)
+    td_us = _period_us(rng) if rng.random() < 0.35 else None
+    ct = td_us / 1000 if td_us is not None else _period(rng)
     jitter = 0.0 if rng.random() < 0.65 else rng.choice([0.1, 0.5, 1.0, rng.random()])
     start = rng.choice([1.7e9, 1726963200.0, float(rng.randint(10 ** 9, 2 ** 31 - 10 ** 6)),
                         rng.uniform(1e9, 2 ** 31 - 1e6), rng.uniform(1e9, 2 ** 31 - 1e6)])
@@ -123,11 +169,15 @@ def _gen_arith(rng):
         steps.append([_h(now), _h(rnd)])
         pj = p * (1 + jitter * (rnd - 0.5)) if jitter else p
         nxt = nxt + (math.floor((now - nxt) / pj) + 1) * pj if nxt <= now else nxt + pj
-    return {"kind": "arith", "ct": _h(ct), "jitter": _h(jitter), "start": _h(start), "steps": steps}
+    case = {"kind": "arith", "ct": _h(ct), "jitter": _h(jitter), "start": _h(start), "steps": steps}
+    if td_us is not None:
+        case["td_us"] = td_us
+    return _with_period(rng, case, ct)
 
 
 def _gen_exact(rng):
-    ct = float(rng.choice(DYADIC_MS))
+    td_us = rng.choice(DYADIC_US) if rng.random() < 0.4 else None
+    ct = td_us / 1000 if td_us is not None else float(rng.choice(DYADIC_MS))
     p = ct / 1000.0
     start = float(rng.randint(0, 100000)) + rng.randint(0, 63) / 64.0
     nxt, steps = start, []
@@ -143,12 +193,16 @@ def _gen_exact(rng):
             now = nxt + rng.randint(-20, 200) * p + rng.choice([0, 1, -1]) / 64.0
         steps.append([_h(now), _h(0.0)])
         nxt = nxt + (math.floor((now - nxt) / p) + 1) * p if nxt <= now else nxt + p
-    return {"kind": "exact", "ct": _h(ct), "jitter": _h(0.0), "start": _h(start), "steps": steps}
+    case = {"kind": "exact", "ct": _h(ct), "jitter": _h(0.0), "start": _h(start), "steps": steps}
+    if td_us is not None:
+        case["td_us"] = td_us
+    return _with_period(rng, case, ct)
 
 
 def _gen_machine(rng, maxops=14):
     """admissible programs: `start` only when idle; everything else anywhere"""
-    ct = float(rng.choice(DYADIC_MS))
+    td_us = rng.choice(DYADIC_US) if rng.random() < 0.4 else None
+    ct = td_us / 1000 if td_us is not None else float(rng.choice(DYADIC_MS))
     kinds = [rng.choice(KINDS + ["coro"]) for _ in range(rng.randint(0, 8))]
     ops, running, inflight, pending = [], False, 0, False
     kq = list(kinds)
@@ -177,11 +231,34 @@ def _gen_machine(rng, maxops=14):
                 inflight -= 1
                 if running:
                     pending = True
-    return {"kind": "machine", "ct": _h(ct), "kinds": kinds, "ops": ops}
+    case = {"kind": "machine", "ct": _h(ct), "kinds": kinds, "ops": ops}
+    if td_us is not None:
+        case["td_us"] = td_us
+    return _with_period(rng, case, ct)
+
+
+def _gen_ctor(rng, tier):
+    """the constructor alone: the boundary list completely, then random arguments"""
+    for us in CTOR_TD:
+        yield {"kind": "ctor", "ct": _h(us / 1000), "td_us": us}
+    for ms in CTOR_MS:
+        yield {"kind": "ctor", "ct": _h(ms)}
+    for n in CTOR_MSINT:
+        yield {"kind": "ctor", "ct": _h(n), "ms_int": True}
+    for _ in range({"quick": 150, "thorough": 3000, "search": 100}[tier]):
+        r = rng.random()
+        if r < 0.7:
+            us = _period_us(rng) if rng.random() < 0.9 else -_period_us(rng)
+            yield {"kind": "ctor", "ct": _h(us / 1000), "td_us": us}
+        elif r < 0.9:
+            yield {"kind": "ctor", "ct": _h(_period(rng) * rng.choice([1, 1, 1, -1, 0]))}
+        else:
+            yield {"kind": "ctor", "ct": _h(rng.randint(-3, 100000)), "ms_int": True}
 
 
 def gen_cases(rng, tier):
     n_ar, n_ex, n_ma = {"quick": (2500, 800, 1500), "thorough": (40000, 10000, 25000), "search": (1500, 400, 700)}[tier]
+    yield from _gen_ctor(rng, tier)
     for _ in range(n_ar):
         yield _gen_arith(rng)
     for _ in range(n_ex):
@@ -191,9 +268,37 @@ def gen_cases(rng, tier):
 
 
 # ------------------------------------------------------------------------------------------ implementation
-def _run_arith(case):
+def _period_arg(case):
+    """the Python object handed to the constructor"""
+    if "td_us" in case:
+        return datetime.timedelta(microseconds=case["td_us"])
+    ct = _f(case["ct"])
+    return int(ct) if case.get("ms_int") else ct
+
+
+def _construct(case, cb, **kw):
+    """-> (PeriodicCallback | None, record of what the constructor did)"""
     from tornado.ioloop import PeriodicCallback
-    pc = PeriodicCallback(lambda: None, _f(case["ct"]), jitter=_f(case["jitter"]))
+    try:
+        pc = PeriodicCallback(cb, _period_arg(case), **kw)
+    except ValueError:
+        return None, {"exc": "ValueError"}
+    except Exception as e:
+        return None, {"exc": "Uncaught:" + type(e).__name__}
+    ct = pc.callback_time
+    if isinstance(ct, bool) or not isinstance(ct, (int, float)) or (isinstance(ct, float) and not math.isfinite(ct)):
+        return None, {"exc": "NotANumber:%r" % (ct,)}
+    fr = Fraction(ct)
+    hu = Fraction(math.ulp(ct)) / 2 if ("td_us" in case and isinstance(ct, float)) else Fraction(0)
+    return pc, {"q": [fr.numerator, fr.denominator], "hu": [hu.numerator, hu.denominator], "repr": repr(ct)}
+
+
+def _run_arith(case):
+    pc, rec = _construct(case, lambda: None, jitter=_f(case.get("jitter", _h(0.0))))
+    if pc is None or case["kind"] == "ctor":
+        return {"ctor": rec, "steps": []}
+    if pc.callback_time <= 0:
+        return {"ctor": rec, "steps": []}
     pc._next_timeout = _f(case["start"])
     out = []
     orig = _random.random
@@ -214,7 +319,7 @@ def _run_arith(case):
             out.append({"before": _h(before), "after": _h(after)})
     finally:
         _random.random = orig
-    return {"steps": out}
+    return {"ctor": rec, "steps": out}
 
 
 class _Capture(logging.Handler):
@@ -231,7 +336,6 @@ class _Capture(logging.Handler):
 def _run_machine(case):
     import asyncio
     from core import vloop
-    from tornado.ioloop import PeriodicCallback
     from tornado.concurrent import Future
     kinds = list(case["kinds"])
     events, inflight, updates = [], [], []
@@ -264,7 +368,9 @@ def _run_machine(case):
                 inflight.append((inv, fut))
                 return co()
 
-            pc = PeriodicCallback(cb, _f(case["ct"]))
+            pc, rec = _construct(case, cb)
+            if pc is None or pc.callback_time <= 0:
+                return {"ctor": rec, "ops": [], "updates": []}
             orig_update = pc._update_next
 
             def upd(current_time):
@@ -312,7 +418,7 @@ def _run_machine(case):
                     evs = events[mark:]
                     out.append({"evs": evs, "running": pc.is_running(), "timers": [_h(t) for t in lp.live_timers()],
                                 "inflight": [i for i, _ in inflight]})
-                return {"ops": out, "updates": updates}
+                return {"ctor": rec, "ops": out, "updates": updates}
             finally:
                 pc.stop()      # a broken scheduler must not keep re-arming itself during loop teardown
     finally:
@@ -321,7 +427,7 @@ def _run_machine(case):
 
 
 def run_impl(case):
-    if case["kind"] in ("arith", "exact"):
+    if case["kind"] in ("arith", "exact", "ctor"):
         return _run_arith(case)
     return _run_machine(case)
 
@@ -334,6 +440,35 @@ def _q(h):
 
 def _ulp(h):
     return _q(math.ulp(_f(h)))
+
+
+def _ctq(case):
+    """the REQUESTED period in milliseconds, exactly"""
+    fr = Fraction(case["td_us"], 1000) if "td_us" in case else Fraction(_f(case["ct"]))
+    return [fr.numerator, fr.denominator]
+
+
+def _period_wire(case):
+    return [atom("td"), case["td_us"]] if "td_us" in case else [atom("ms"), _q(case["ct"])]
+
+
+def _ctor_line(case, impl):
+    rec = impl["ctor"]
+    return line(ID, "ctor", _period_wire(case), rec.get("q"), rec.get("hu", [0, 1]))
+
+
+def _ctor_model(reply):
+    st, vals = parse_reply(reply)
+    if st != "ok":
+        return {"ctor_err": vals}
+    if str(vals[1]) == "T":        # Spec.ctorAgrees: both raise, or the stored value is the exact quotient correctly rounded
+        return "ValueError" if vals[0] is None else "accepted"
+    return {"ctor_model": "ValueError" if vals[0] is None else _plain(vals[0])}
+
+
+def _ctor_impl(impl):
+    exc = impl["ctor"].get("exc", "")
+    return exc or "accepted"
 
 
 def _wire_op(op):
@@ -355,16 +490,18 @@ def _wire_ev(e):
 def model_requests(case, impl):
     if "harness_exc" in impl:
         return []
+    if case["kind"] == "ctor":
+        return [_ctor_line(case, impl)]
     if case["kind"] in ("arith", "exact"):
-        out = []
+        out = [_ctor_line(case, impl)]
         for (now_h, rnd_h), st in zip(case["steps"], impl["steps"]):
-            args = [_q(case["ct"]), _q(case["jitter"]), _q(st["before"]), _q(now_h), _q(rnd_h)]
+            args = [_ctq(case), _q(case["jitter"]), _q(st["before"]), _q(now_h), _q(rnd_h)]
             out.append(line(ID, "update", *args))
             if case["kind"] == "arith" and "after" in st:
                 out.append(line(ID, "agrees", *args, _q(st["after"]), _ulp(st["after"])))
         return out
-    return [line(ID, "machine", _q(case["ct"]), [1000, 1], [atom(k) for k in case["kinds"]],
-                 [_wire_op(o) for o in case["ops"]])]
+    return [_ctor_line(case, impl),
+            line(ID, "machine", _ctq(case), [1000, 1], [atom(k) for k in case["kinds"]], [_wire_op(o) for o in case["ops"]])]
 
 
 def _plain(v):
@@ -376,14 +513,17 @@ def _plain(v):
 
 
 def model_result(case, replies):
+    ctor, replies = _ctor_model(replies[0]), replies[1:]
+    if case["kind"] == "ctor":
+        return [ctor]
     if case["kind"] == "exact":
-        out = []
+        out = [ctor]
         for r in replies:
             st, vals = parse_reply(r)
             out.append(_plain(vals[0]) if st == "ok" else vals)
         return out
     if case["kind"] == "arith":
-        out, i = [], 0
+        out, i = [ctor], 0
         while i < len(replies):
             st, vals = parse_reply(replies[i])
             if st != "ok":
@@ -401,7 +541,8 @@ def model_result(case, replies):
         return out
     st, vals = parse_reply(replies[0])
     assert st == "ok", replies[0]
-    return [{"evs": _plain(o[0]), "running": _plain(o[1]), "timers": _plain(o[2]), "inflight": _plain(o[3])} for o in vals[0]]
+    return [ctor] + [{"evs": _plain(o[0]), "running": _plain(o[1]), "timers": _plain(o[2]), "inflight": _plain(o[3])}
+                     for o in vals[0]]
 
 
 def _is_agrees(reply):
@@ -410,11 +551,13 @@ def _is_agrees(reply):
 
 
 def impl_view(case, impl):
+    if case["kind"] == "ctor":
+        return [_ctor_impl(impl)]
     if case["kind"] == "exact":
-        return [_q(st["after"]) if "after" in st else st["exc"] for st in impl["steps"]]
+        return [_ctor_impl(impl)] + [_q(st["after"]) if "after" in st else st["exc"] for st in impl["steps"]]
     if case["kind"] == "arith":
-        return ["ok" if "after" in st else st["exc"] for st in impl["steps"]]
-    out = []
+        return [_ctor_impl(impl)] + ["ok" if "after" in st else st["exc"] for st in impl["steps"]]
+    out = [_ctor_impl(impl)]
     for o in impl["ops"]:
         out.append({"evs": [_plain(_wire_ev(e)) for e in o["evs"]], "running": o["running"],
                     "timers": [_q(t) for t in o["timers"]], "inflight": o["inflight"]})
@@ -424,20 +567,43 @@ def impl_view(case, impl):
 def spec_requests(case, impl):
     if "harness_exc" in impl:
         return []
+    ctor = line(ID, "ctorspec", _period_wire(case), impl["ctor"].get("q"))
+    if case["kind"] == "ctor":
+        return [ctor]
     if case["kind"] in ("arith", "exact"):
-        out = []
+        out = [ctor]
         for (now_h, rnd_h), st in zip(case["steps"], impl["steps"]):
             if "after" in st:
                 ulp = _ulp(st["after"]) if case["kind"] == "arith" else [0, 1]
-                out.append(line(ID, "spec", _q(case["ct"]), _q(case["jitter"]), _q(st["before"]), _q(now_h), _q(st["after"]), ulp))
+                out.append(line(ID, "spec", _ctq(case), _q(case["jitter"]), _q(st["before"]), _q(now_h), _q(st["after"]), ulp))
         return out
-    out = [line(ID, "trace", [_wire_op(o) for o in case["ops"]], [[_wire_ev(e) for e in o["evs"]] for o in impl["ops"]])]
+    if not impl["ops"] and case["ops"]:
+        return [ctor]
+    out = [ctor, line(ID, "trace", [_wire_op(o) for o in case["ops"]], [[_wire_ev(e) for e in o["evs"]] for o in impl["ops"]])]
     for before, now, after in impl["updates"]:
-        out.append(line(ID, "spec", _q(case["ct"]), [0, 1], _q(before), _q(now), _q(after), [0, 1]))
+        out.append(line(ID, "spec", _ctq(case), [0, 1], _q(before), _q(now), _q(after), [0, 1]))
     return out
 
 
+def _arg_text(case):
+    if "td_us" in case:
+        return "datetime.timedelta(microseconds=%d)" % case["td_us"]
+    return repr(_period_arg(case))
+
+
 def spec_violation(case, impl, replies):
+    st_, vals = parse_reply(replies[0])
+    replies = replies[1:]
+    if st_ != "ok":
+        return "constructor spec not evaluable: %s" % (vals,)
+    if vals[0]:
+        return "constructor: clause %s violated: PeriodicCallback(cb, %s) -> %s" % (
+            "+".join(map(str, vals[0])), _arg_text(case), impl["ctor"].get("exc"))
+    exc = impl["ctor"].get("exc", "")
+    if exc not in ("", "ValueError"):
+        return "constructor: PeriodicCallback(cb, %s) -> %s" % (_arg_text(case), exc)
+    if case["kind"] == "ctor":
+        return None
     if case["kind"] in ("arith", "exact"):
         i = 0
         for n, ((now_h, rnd_h), st) in enumerate(zip(case["steps"], impl["steps"])):
@@ -447,9 +613,11 @@ def spec_violation(case, impl, replies):
             if st_ != "ok":
                 return "step %d: spec not evaluable: %s" % (n, vals)
             if vals[0]:
-                return "step %d: clause %s violated: period=%rms jitter=%r next=%r now=%r rnd=%r -> next'=%r" % (
-                    n, "+".join(map(str, vals[0])), _f(case["ct"]), _f(case["jitter"]), _f(st["before"]), _f(now_h),
+                return "step %d: clause %s violated: period=%s (stored callback_time=%s ms) jitter=%r next=%r now=%r rnd=%r -> next'=%r" % (
+                    n, "+".join(map(str, vals[0])), _arg_text(case), impl["ctor"].get("repr"), _f(case["jitter"]), _f(st["before"]), _f(now_h),
                     _f(rnd_h), _f(st["after"]))
+        return None
+    if not replies:
         return None
     st_, vals = parse_reply(replies[0])
     if st_ != "ok":
@@ -459,12 +627,21 @@ def spec_violation(case, impl, replies):
     for (before, now, after), r in zip(impl["updates"], replies[1:]):
         st_, v = parse_reply(r)
         if st_ == "ok" and v[0]:
-            return "machine: scheduling clause %s violated: next=%r now=%r -> next'=%r" % (
-                "+".join(map(str, v[0])), _f(before), _f(now), _f(after))
+            return "machine: scheduling clause %s violated: period=%s (stored callback_time=%s ms) next=%r now=%r -> next'=%r" % (
+                "+".join(map(str, v[0])), _arg_text(case), impl["ctor"].get("repr"), _f(before), _f(now), _f(after))
     return None
 
 
+def _arg_class(case):
+    if "td_us" in case:
+        us = case["td_us"]
+        return "td:" + ("nonpositive" if us <= 0 else "sub-ms" if us < 1000 else "whole-ms" if us % 1000 == 0 else "non-integral-ms")
+    return "ms:int" if case.get("ms_int") else "ms:float"
+
+
 def nontrivial(case, impl):
+    if case["kind"] == "ctor":
+        return _arg_class(case) in ("td:sub-ms", "td:non-integral-ms") or "exc" in impl["ctor"]
     if case["kind"] in ("arith", "exact"):
         for (now_h, _), st in zip(case["steps"], impl["steps"]):
             if "after" in st:
@@ -477,7 +654,9 @@ def nontrivial(case, impl):
 
 
 def stats(case, impl):
-    out = ["kind:" + case["kind"]]
+    out = ["kind:" + case["kind"], "arg:" + _arg_class(case), "ctor:" + impl["ctor"].get("exc", "accepted")]
+    if case["kind"] == "ctor":
+        return out
     if case["kind"] in ("arith", "exact"):
         ct = _f(case["ct"])
         out.append("period:1e%d ms" % math.floor(math.log10(ct)))
@@ -513,6 +692,8 @@ def signature(case, impl, why):
 
 
 def shrink(case):
+    if case["kind"] == "ctor":
+        return
     if case["kind"] in ("arith", "exact"):
         s = case["steps"]
         for i in range(len(s)):
@@ -526,7 +707,9 @@ def shrink(case):
 
 
 def describe(case):
+    if case["kind"] == "ctor":
+        return {**case, "callback_time_arg": _arg_text(case)}
     if case["kind"] in ("arith", "exact"):
-        return {**case, "ct_ms": _f(case["ct"]), "start_s": _f(case["start"]),
+        return {**case, "callback_time_arg": _arg_text(case), "ct_ms": _f(case["ct"]), "start_s": _f(case["start"]),
                 "clock": [_f(a) for a, _ in case["steps"]]}
     return case
